@@ -8,6 +8,9 @@ Inductive helper :=
 | HPdfStaged   (* pdfcpu.createStagedFile + finishStagedFile (pkg/pdfcpu/io.go) *)
 | HCut         (* api.writeCutOutputWith (pkg/api/cut.go) *)
 | HNewFile     (* pdfcpu.writeNewFile: O_EXCL create, remove on error *)
+| HMultiRollback (* a multi-output transaction (form multi-fill): every part is written through HStaged, the
+                    parts written so far are recorded, and in merge mode a rollback registered before the
+                    first part removes all of them on every exit *)
 | HMulti       (* several outputs, each written through one of the helpers above; earlier outputs stay *)
 | HReadOnly    (* creates no file *)
 | HInPlace.    (* overwrites bytes of an existing file in place (PatchFile) *)
@@ -18,6 +21,8 @@ Inductive dkey :=
 | DErr         (* deferred, reads the named error result *)
 | DShadowedErr (* deferred, reads a local `err` that shadows the named result and is nil whenever the
                   defer was registered: the commit branch is taken however the body ended *)
+| DRollbackFirst (* multi-output transaction: the deferred rollback is registered before the record loop and
+                    is unconditional; every part is recorded before the loop returns its error *)
 | DNoDefer     (* not deferred: runs only when the body returns *)
 | DNA.         (* no decision (read-only / multi-output driver) *)
 
@@ -26,11 +31,11 @@ Record frow := FRow { f_pkg : string; f_name : string; f_helper : helper; f_key 
 Definition helper_eqb (a b : helper) : bool :=
   match a, b with
   | HStaged, HStaged | HPdfStaged, HPdfStaged | HCut, HCut | HNewFile, HNewFile
-  | HMulti, HMulti | HReadOnly, HReadOnly | HInPlace, HInPlace => true
+  | HMulti, HMulti | HMultiRollback, HMultiRollback | HReadOnly, HReadOnly | HInPlace, HInPlace => true
   | _, _ => false
   end.
 Definition dkey_eqb (a b : dkey) : bool :=
   match a, b with
-  | DFlag, DFlag | DErr, DErr | DShadowedErr, DShadowedErr | DNoDefer, DNoDefer | DNA, DNA => true
+  | DFlag, DFlag | DErr, DErr | DShadowedErr, DShadowedErr | DNoDefer, DNoDefer | DRollbackFirst, DRollbackFirst | DNA, DNA => true
   | _, _ => false
   end.
